@@ -354,6 +354,22 @@ theorem forestClaim_all : ∀ f, ForestClaim d f := by
 
 end induction
 
+/-- the element loop on a whole text in brace style, from any clean parser state -/
+theorem loop_brace (d : Decor) (hd : d.ok) (f : Forest) (hok : nodesOk f = true) (s : St)
+    (hclean : Clean [] s.path) (hv : s.valid = 0) :
+    (loop .pre cfgB nodeAppend ({} : Build) Flag.section_ s { rest := renderBrace d 0 f }).code = 0
+    ∧ (loop .pre cfgB nodeAppend ({} : Build) Flag.section_ s { rest := renderBrace d 0 f }).ctx.forest = norm f := by
+  obtain ⟨b', prev', s', src', J', hr, _, hf, _, heq⟩ :=
+    forestClaim_all d hd f 0 0 [] ({} : Build) Flag.section_ s { rest := renderBrace d 0 f } [] [] true hok
+      ⟨hclean, hv, rfl, by simp⟩ (by simp [Mode, Flag.section_, Flag.sectEnd]) trivial
+  have hsrc : src'.rest = J' := by simpa using hr.src
+  obtain ⟨s2, src2, heof⟩ := pre_eof s' src' J' false hr.clean hr.junk hsrc
+  obtain ⟨hcode, hctx⟩ := loop_stop_pre b' prev' s' s2 src' src2 heof
+  rw [heq]
+  refine ⟨hcode, ?_⟩
+  rw [hctx, hf]
+  simp [appendAll_zero]
+
 /-- **brace style is read back**: `mpt_parse_node` on an empty target, default format, all name flags,
     applied to the text of an admissible forest with any valid decoration, succeeds with the normal
     form of the forest -/
@@ -362,17 +378,11 @@ theorem parseNode_brace (d : Decor) (hd : d.ok) (f : Forest) (hok : nodesOk f = 
     ∧ (parseNode [] none 0xff 0xff (-2) (renderBrace d 0 f)).children = norm f := by
   have hcfg : ({ fmt := (parseFormat none).1, sect := 0xff, opt := 0xff, eof := -2 } : Cfg) = cfgB := rfl
   have hkind : Kind.ofType (parseFormat none).2 = some .pre := by decide
-  obtain ⟨b', prev', s', src', J', hr, _, hf, _, heq⟩ :=
-    forestClaim_all d hd f 0 0 [] ({} : Build) Flag.section_ ({} : St) { rest := renderBrace d 0 f } [] [] true hok
-      ⟨clean_init, rfl, rfl, by simp⟩ (by simp [Mode, Flag.section_, Flag.sectEnd]) trivial
-  have hsrc : src'.rest = J' := by simpa using hr.src
-  obtain ⟨s2, src2, heof⟩ := pre_eof s' src' J' false hr.clean hr.junk hsrc
-  obtain ⟨hcode, hctx⟩ := loop_stop_pre b' prev' s' s2 src' src2 heof
+  obtain ⟨hcode, hforest⟩ := loop_brace d hd f hok ({} : St) clean_init rfl
   have hloop : parseConfig .pre cfgB nodeAppend ({} : Build) Flag.section_ (renderBrace d 0 f)
-      = loop .pre cfgB nodeAppend b' prev' s' src' := by
-    unfold parseConfig; exact heq
+      = loop .pre cfgB nodeAppend ({} : Build) Flag.section_ ({} : St) { rest := renderBrace d 0 f } := rfl
   unfold parseNode
-  simp only [hkind, hcfg, hloop, hcode, hctx, hf]
-  simp [appendAll_zero]
+  simp only [hkind, hcfg, hloop, hcode, hforest]
+  simp
 
 end Mpt.Parse
